@@ -35,3 +35,64 @@ GROUPS = {
       R('convertAngVelDotToBodyFixed321DotDot', 3, 'angAcc2qdd321'),
     ]),
 }
+
+# ---- C41: smooth step helpers of Scalar.h (free inline functions; the double overloads) -------------------
+SCALAR_H = 'SimTKcommon/Scalar/include/SimTKcommon/Scalar.h'
+def STEP(name, n, sig):
+    args = ','.join('{%d}' % i for i in range(n))
+    return dict(name=name, nparams=n, coq='k_' + name, cxx='SimTK::%s(%s)' % (name, args), sig=sig)
+GROUPS['step'] = dict(
+    source=SCALAR_H, tu='#include "SimTKcommon.h"', filter='step', container=('free', None),
+    kernels=[STEP('stepUp', 1, 'double (double)'), STEP('dstepUp', 1, 'double (double)'),
+             STEP('d2stepUp', 1, 'double (double)'), STEP('d3stepUp', 1, 'double (double)'),
+             STEP('stepDown', 1, 'double (double)'), STEP('dstepDown', 1, 'double (double)'),
+             STEP('d2stepDown', 1, 'double (double)'), STEP('d3stepDown', 1, 'double (double)'),
+             STEP('stepAny', 5, 'double (double'), STEP('dstepAny', 4, 'double (double'),
+             STEP('d2stepAny', 4, 'double (double'), STEP('d3stepAny', 4, 'double (double')])
+
+# ---- C27: straight-line Rotation_ setters (members that write the rotation's own Mat33: kernel key self='M33') ---------
+import os as _os27
+_ROT_CPP27 = 'SimTKcommon/Mechanics/src/Rotation.cpp'
+_TU27 = '#include "SimTKcommon.h"\n#include "%s/%s"' % (_os27.environ.get('VERIF_REPO', '/repo'), _ROT_CPP27)
+def M27(name, n, coq, **kw):
+    args = ','.join('{%d}' % i for i in range(n + 1))       # argument 0 is the object itself
+    d = dict(name=name, nparams=n, coq=coq, cxx='k27::%s(%s)' % (coq, args), self='M33', ret='M33'); d.update(kw); return d
+GROUPS['rot27'] = dict(
+    source=ROT_H + ' + ' + _ROT_CPP27, tu=_TU27, filter='setRotation', container=('class', 'Rotation_'),
+    kernels=[M27('setRotationFromAngleAboutX', 2, 'k27_setX'), M27('setRotationFromAngleAboutY', 2, 'k27_setY'),
+             M27('setRotationFromAngleAboutZ', 2, 'k27_setZ'),
+             M27('setRotationToBodyFixedXYZ', 2, 'k27_bodyXYZ'),
+             M27('setRotationFromQuaternion', 1, 'k27_fromQuat', sig='Quaternion_<P>'),
+             M27('setRotationFromMat33TrustMe', 1, 'k27_trustMe')])
+
+# ---- C29: mass-property and spatial-algebra kernels (MassProperties.h class templates, SpatialAlgebra.h free functions) -----
+_MP_H29 = 'SimTKcommon/Mechanics/include/SimTKcommon/internal/MassProperties.h'
+_SA_H29 = 'SimTKcommon/Mechanics/include/SimTKcommon/internal/SpatialAlgebra.h'
+# NTraits<double>::getSignificant() = pow(2^-52, 0.875) = 0x1.6a09e667f3bcdp-46 as an exact dyadic rational (checked against the
+# compiled value by checks/C29.py on every run)
+_SIG29 = '(ndiv K (nofZ K (6369051672525773)%Z) (nofZ K (316912650057057350374175801344)%Z))'
+def K29(name, n, coq, cxx, **kw):
+    d = dict(name=name, nparams=n, coq=coq, cxx=cxx); d.update(kw); return d
+GROUPS['c29in'] = dict(
+    source=_MP_H29, tu='#include "SimTKcommon.h"', filter='Inertia_', container=('classtemplate', 'Inertia_'),
+    consts={'getSignificant': _SIG29},
+    kernels=[K29('pointMassAt', 2, 'in_pointMassAt', 'Inertia::pointMassAt({0},{1}).asSymMat33()'),
+             K29('isValidInertiaMatrix', 1, 'in_isValid', 'Inertia::isValidInertiaMatrix({0})'),
+             K29('shiftToMassCenter', 2, 'in_shiftToMassCenter', 'Inertia({0}).shiftToMassCenter({1},{2}).asSymMat33()', self='SYM'),
+             K29('shiftFromMassCenter', 2, 'in_shiftFromMassCenter', 'Inertia({0}).shiftFromMassCenter({1},{2}).asSymMat33()', self='SYM')])
+GROUPS['c29si'] = dict(
+    source=_MP_H29, tu='#include "SimTKcommon.h"', filter='SpatialInertia_', container=('classtemplate', 'SpatialInertia_'),
+    kernels=[K29('calcMassMoment', 0, 'si_calcMassMoment', 'SpatialInertia({0},{1},UnitInertia({2})).calcMassMoment()',
+                 members=[('m', 'S'), ('p', 'V3'), ('G', 'SYM')]),
+             K29('operator*', 1, 'si_mulSV', '(SpatialInertia({0},{1},UnitInertia({2}))*{3})',
+                 members=[('m', 'S'), ('p', 'V3'), ('G', 'SYM')])])
+GROUPS['c29sa'] = dict(
+    source=_SA_H29, tu='#include "SimTKcommon.h"', filter='shift', more_filters=['findRelative'], container=('free', None),
+    kernels=[K29('shiftVelocityBy', 2, 'sa_shiftVelocityBy', 'shiftVelocityBy({0},{1})'),
+             K29('shiftVelocityFromTo', 3, 'sa_shiftVelocityFromTo', 'shiftVelocityFromTo({0},{1},{2})'),
+             K29('shiftForceBy', 2, 'sa_shiftForceBy', 'shiftForceBy({0},{1})'),
+             K29('shiftForceFromTo', 3, 'sa_shiftForceFromTo', 'shiftForceFromTo({0},{1},{2})'),
+             K29('shiftAccelerationBy', 3, 'sa_shiftAccelerationBy', 'shiftAccelerationBy({0},{1},{2})'),
+             K29('shiftAccelerationFromTo', 4, 'sa_shiftAccelerationFromTo', 'shiftAccelerationFromTo({0},{1},{2},{3})'),
+             K29('findRelativeVelocityInF', 3, 'sa_findRelativeVelocityInF', 'findRelativeVelocityInF({0},{1},{2})'),
+             K29('findRelativeAccelerationInF', 5, 'sa_findRelativeAccelerationInF', 'findRelativeAccelerationInF({0},{1},{2},{3},{4})')])
